@@ -48,6 +48,12 @@ def drive_and_validate(ctx, prop, insts, describe=None, extra=None):
                         outcome=ln["outcome"], nkeys=ln["nkeys"], worst=ln["worst"]))
     bad = ctx.tlc_validate("Trace_Rel", "Trace.cfg", [relations.strip(ln) for ln in lines])
     byoid = {ln["oid"]: (i, ln) for i, ln in zip(todo, lines)}
+    good = [relations.strip(ln) for ln in lines if ln["oid"] not in bad and ln["nontrivial"]]
+    ctx.selftest("Trace_Rel", "Trace.cfg", good, [
+        ("resid", lambda l: dict(l, resid_milli=4000)),
+        ("coef", lambda l: dict(l, terms=[dict(l["terms"][0], coef=[3, 1])] + l["terms"][1:])),
+        ("relation", lambda l: dict(l, rel="FONLLParts" if l["rel"] != "FONLLParts" else "PositronFlip")),
+        ("keys", lambda l: dict(l, keyset_ok=False))])
     for oid, clause in bad.items():
         i, ln = byoid[oid]
         pt = i["pt"]
